@@ -170,6 +170,14 @@ def run_shard(args):
     model = os.path.join(workdir, "s%d.model" % idx)
     judge = os.path.join(workdir, "s%d.judge" % idx)
     write_script(script, hs)
+    # the model and the judge know a demanded header or "any": a builder on which both setters were called in a row demands
+    # what the last call said (`hdr=any>HEX` = HEX, `hdr=HEX>any` = any); only the implementation sees the two calls
+    script_m = script
+    txt = open(script).read()
+    if ">any" in txt or "any>" in txt or " p=any! " in txt:
+        script_m = os.path.join(workdir, "s%d.m.bs" % idx)
+        with open(script_m, "w") as f:
+            f.write(re.sub(r" hdr=([0-9a-f-]+)>any\b", " hdr=any", re.sub(r" hdr=any>([0-9a-f-]+)", r" hdr=\1", txt.replace(" p=any! ", " p=any "))))
     # implementation; restart after a hang (exit 3) at the next history
     start = 0
     hangs = []
@@ -187,7 +195,7 @@ def run_shard(args):
                     break
                 continue
             break
-    cmd = "ulimit -s unlimited 2>/dev/null; exec %s %s --impl %s --model-out %s --judge-out %s" % (BSMODEL, script, impl, model, judge)
+    cmd = "ulimit -s unlimited 2>/dev/null; exec %s %s --impl %s --model-out %s --judge-out %s" % (BSMODEL, script_m, impl, model, judge)
     p = subprocess.run(["bash", "-c", cmd], stdout=subprocess.PIPE, stderr=subprocess.PIPE, text=True)
     merr = p.stderr.strip() if p.returncode != 0 else ""
     return collect(hs, script, impl, model, judge, hangs, merr)
@@ -313,6 +321,80 @@ def collect(hs, script, impl, model, judge, hangs, merr):
                             break
                     q += 1
             j += 1
+        # C13 / C14 read literally. Both are stated against "a full read of that range": for a `read_all lo hi` that answered
+        # with lines and a `read_first_n n lo hi` / `n_lines lo hi` with the same bounds on the same state (no call that can change
+        # the series in between), the implementation's own answers must fit: the first n lines are the prefix of the full read;
+        # the count is zero (or an error) exactly when the full read is empty, at least the number of lines read, and - for a
+        # series this history created and no fault operation touched, whose sections follow from the accepted appends by the
+        # 65534 rule - above it by at most K slots for every section from the one holding the first line read to the one
+        # holding the last.
+        order, touched13, fullr, cname, cp = {}, set(), {}, None, None
+        for j, op in enumerate(ops):
+            a = ri[j] if j < len(ri) else None
+            if a is None:
+                break
+            res = a[2:].split(" | ")[0].strip()
+            t = op.split()
+            ko = t[0]
+            lit = None
+            if ko in ("new", "open"):
+                fullr, cname, cp = {}, None, None
+                m = re.match(r"ok p=(\d+)", res)
+                if m:
+                    cname, cp = t[1], int(m.group(1))
+                    if ko == "new":
+                        order[cname] = []; touched13.discard(cname)
+            elif ko == "close":
+                cname, fullr = None, {}
+            elif ko.startswith("fs_"):
+                touched13.add((t[2] if ko == "fs_asset" and len(t) > 2 else t[1].split(":")[1] if len(t) > 1 and ":" in t[1] else ""))
+            elif ko == "push":
+                fullr = {}
+                if cname and res == "ok":
+                    order.setdefault(cname, []).append(int(t[1]))
+            elif ko == "pushseq":
+                fullr = {}
+                m = re.match(r"(?:ok|stop) (\d+)", res)
+                if m and cname:
+                    order.setdefault(cname, []).extend(int(t[1]) + i2 * int(t[2]) for i2 in range(int(m.group(1))))
+            elif ko == "read_all" and cname:
+                rt = res.split()
+                if len(rt) >= 2 and rt[0] == "ok" and rt[1].isdigit() and int(rt[1]) == len(rt) - 2:
+                    fullr[(t[1], t[2])] = rt[2:]          # also when the judge rejected it: C13 and C14 speak of the library's own full read
+                else:
+                    fullr.pop((t[1], t[2]), None)
+            elif ko == "read_first_n" and cname and (t[2], t[3]) in fullr and t[1].isdigit() and int(t[1]) >= 1:
+                items = fullr[(t[2], t[3])]
+                want = items[:min(int(t[1]), len(items))]
+                rt = res.split()
+                if items and not (rt[:1] == ["ok"] and rt[2:] == want) and "panic" not in res and "hang" not in res:
+                    lit = ("C13", "result %s :: got %s :: but the full read of the same range just before returned %d lines beginning %s" % (op, res[:200], len(items), " ".join(items[:3])))
+            elif ko == "n_lines" and cname and (t[1], t[2]) in fullr:
+                items = fullr[(t[1], t[2])]
+                rt = res.split()
+                if rt[:1] == ["ok"] and len(rt) == 2 and rt[1].isdigit():
+                    c = int(rt[1])
+                    if not items and c != 0:
+                        lit = ("C14", "result %s :: got %s :: but the full read of the same range just before returned no line" % (op, res))
+                    elif items and c < len(items):
+                        lit = ("C14", "result %s :: got %s :: fewer than the %d lines the full read of the same range just before returned" % (op, res, len(items)))
+                    elif items and cname in order and cname not in touched13 and cp is not None:
+                        sec, fl, k2 = {}, None, -1
+                        for ts2 in order[cname]:
+                            if fl is None or ts2 - fl > 65534:
+                                fl = ts2; k2 += 1
+                            sec[ts2] = k2
+                        f0, f1 = int(items[0].split(":")[0]), int(items[-1].split(":")[0])
+                        if f0 in sec and f1 in sec and c > len(items) + gen.K(cp) * (sec[f1] - sec[f0] + 1):
+                            lit = ("C14", "result %s :: got %s :: the full read of the same range just before returned %d lines from section %d to section %d of the series: at most %d slots may be counted" %
+                                   (op, res, len(items), sec[f0], sec[f1], len(items) + gen.K(cp) * (sec[f1] - sec[f0] + 1)))
+                elif rt[:1] == ["err"] and items:
+                    lit = ("C14", "result %s :: got %s :: but the full read of the same range just before returned %d lines" % (op, res, len(items)))
+            if lit:
+                jf = {"op_index": j, "op": op, "what": lit[1], "props": [lit[0]], "consistency": True}
+                rec["judge_fails"].append(jf)
+                if rec["judge_fail"] is None:
+                    rec["judge_fail"] = jf
         # C01 / C18 read literally: a read never returns a line nobody appended ("nothing added", "never a line with a fabricated
         # timestamp"). For a series whose content comes from appends of this history only (no foreign bytes were put into its
         # data file), every (timestamp, payload) a full, bounded or first-n read returns must be one an accepted append wrote -
